@@ -1,7 +1,7 @@
 """C08 - a rule that fails to evaluate is skipped; it never aborts classification.
 
 Exhaustive product: {56 syntactically valid but ill-typed or partial expressions (always failing, or failing
-only for some items)} x {positions: match, let, field, tag, transform, top-level variable} x {bad element first /
+only for some items)} x {positions: match, let, field, tag, transform (before / after a decisive transform of the same field), top-level variable} x {bad element first /
 middle / last among good rules} x 10 transactions processed IN SEQUENCE through one engine (items on which the
 expression fails come before items on which it works), through MerchantEngine.match, the
 get_all_rules/normalize_merchant path and parse_generic_csv; plus 14 view filters x {view filter, view-local variable, global variable}
@@ -43,7 +43,7 @@ BAD = [
     # lazily failing: the expression itself evaluates (to a generator), consuming it fails
     '(r for r in amount)', '(r.nope for r in orders)', '(1 / description for r in orders)', '[x for x in (r.nope for r in orders)]',
 ]
-POSITIONS = ["match", "let-unused", "let-used", "field", "tag", "transform", "variable"]
+POSITIONS = ["match", "match-let-shadow", "let-unused", "let-used", "field", "tag", "transform", "transform-after", "variable"]
 PLACEMENTS = ["first", "middle", "last"]
 
 VIEW_BAD = ['total > "x"', 'sum(by("month")) > 5', 'by("nope")', 'period("nope") > 1', 'max_val(1) > 0', 'avg("x") > 1', '"x" in total', 'tags > 1',
@@ -98,6 +98,13 @@ def build(exprs, positions, placement, remove=False):
         if pos == "match":
             if not remove:
                 bad_rules.append({"name": name, "match": x, "category": "BadCat", "subcategory": "B", "tags": "badtag"})
+        elif pos == "match-let-shadow":
+            # the failing rule binds (successfully) a let: name that shadows a global variable; the rule right after it reads the global
+            pre.append("big = amount > 100000")
+            if not remove:
+                bad_rules.append({"name": name, "let": [("big", "amount > 0"), ("zz", '"NETFLIX"')], "match": x, "category": "BadCat", "tags": "badtag"})
+            bad_rules.append({"name": f"UsesBig{n}", "match": "big", "category": "BigCat", "tags": "bg"})
+            bad_rules.append({"name": f"UsesZz{n}", "match": "contains(zz)", "category": "ZzCat", "tags": "zt"})
         elif pos == "let-unused":
             r = {"name": name, "match": 'contains("NETFLIX") and amount > 60', "category": "LetCat", "tags": "lt"}
             if not remove:
@@ -119,6 +126,13 @@ def build(exprs, positions, placement, remove=False):
                 pre.append(f"field.description = {x}")
             # a later, evaluable transform that decides classification: "MISC ..." rows become NETFLIX rows
             pre.append('field.description = regex_replace(field.description, "^MISC", "NETFLIX")')
+        elif pos == "transform-after":
+            # an EARLIER, evaluable transform of the same field decides classification; the failing one comes after it and
+            # must leave the earlier one's effect in place
+            pre.append('field.description = regex_replace(field.description, "^MISC", "NETFLIX")')
+            if not remove:
+                pre.append(f"field.description = {x}")
+                pre.append(f"field.memo = {x}")
         elif pos == "variable":
             if not remove:
                 pre.append(f"v{n} = {x}")
@@ -219,8 +233,11 @@ def check_rules(case):
         return {"evals": 1, "nontrivial": 0, "outcomes": ["loader-rejects"], "violations": [], "sample_repr": {"file": full, "rejected": True}}
     reduced = build(exprs, positions, placement, remove=True)
     viol, evals = [], 0
-    fail = [all(fails_alone(BAD[e], t) for e in exprs) for t in TXNS]
-    anyfail = [any(fails_alone(BAD[e], t) for e in exprs) for t in TXNS]
+    import re as _re
+    # what the failing element sees: after an earlier decisive transform the description already reads NETFLIX...
+    seen = [dict(t, description=_re.sub("^MISC", "NETFLIX", t["description"])) if "transform-after" in positions else t for t in TXNS]
+    fail = [all(fails_alone(BAD[e], t) for e in exprs) for t in seen]
+    anyfail = [any(fails_alone(BAD[e], t) for e in exprs) for t in seen]
     seq_a, fresh_a, red_a = run_engine_seq(full), run_engine_fresh(full), run_engine_fresh(reduced)
     seq_b, red_b = run_normalize_seq(full), run_normalize_seq(reduced)
     csv_full, nrows = run_csv(full)
@@ -252,6 +269,8 @@ def check_rules(case):
             for (t, a, b) in zip(rows, csv_full, csv_red):
                 f = t["field"] or {}
                 as_read = dict(t, source="Amex", field={"memo": f.get("memo", ""), "type": f.get("type", "")})   # what the CSV reader yields
+                if "transform-after" in positions:
+                    as_read["description"] = _re.sub("^MISC", "NETFLIX", as_read["description"])
                 if all(fails_alone(BAD[e], as_read) for e in exprs) and a != b:
                     viol.append({"kind": "failing-element-changes-outcome", "detail": {"entry": "parse_generic_csv", "file": full, "row": a, "without_it": b}})
     return {"evals": evals, "nontrivial": 1 if any(anyfail) else 0, "outcomes": sorted(outcomes), "violations": viol[:12],
